@@ -193,7 +193,11 @@ def parse_trace(s):
     if tr != ".":
         for e in tr.split(","):
             f = e.split(":")
-            ents.append((Z(f[0][1:]), Z(f[1]), Z(f[2]), Z(f[3]) if len(f) > 3 else None))
+            k = Z(f[1])
+            x = None
+            if len(f) > 3:
+                x = f[3] if k == 15 else Z(f[3])     # describe-groups: the groups named, "+"-joined
+            ents.append((Z(f[0][1:]), k, Z(f[2]), x))
     return ents, status
 
 
@@ -433,6 +437,38 @@ def e2e_expect(boot, md, req, fc, fcver=1):
     return None, None
 
 
+def pred_describegroups(boot, vers, client, req, fc, go):
+    """split group requests: every sub-request a broker receives names ONLY groups that broker
+    coordinates, every requested group is named exactly once overall, and the merged answer has
+    exactly one entry per requested group, carrying its coordinator's (error-free) answer"""
+    groups = req[3:].split(";")
+    coord = {kv.split("=")[0]: Z(kv.split("=")[1]) for kv in fc[2:].split(";")}
+    ents, merged = parse_trace(go)
+    out = []
+    named = []
+    for b, k, v, x in ents:
+        ok, why = version_ok(client, vers.get(b, {}), k, v)
+        if not ok:
+            out.append((None, f"request api {k} to broker {b} encoded at version {v}: {why}"))
+        if k == 15:
+            for g in (x or "").split("+"):
+                named.append(g)
+                if coord.get(g) != b:
+                    out.append((None, f"describe-groups sub-request sent to broker {b} names group {bytes.fromhex(g).decode()!r} "
+                                      f"whose coordinator is broker {coord.get(g)}"))
+        elif k == 10:
+            if b != boot:
+                out.append((None, "find-coordinator not sent on the control connection"))
+        else:
+            out.append((None, f"unexpected request api {k} during describe-groups"))
+    if sorted(named) != sorted(groups):
+        out.append((None, f"the sub-requests name {len(named)} group(s) for {len(groups)} requested: each group must be named exactly once"))
+    want = ";".join(f"{g}=0@b{('%x' % coord[g])}" for g in groups)
+    if merged != want:
+        out.append((None, f"merged describe-groups answer {merged!r}: expected exactly one entry per requested group from its coordinator ({want})"))
+    return out[:3]
+
+
 def pred_e2e(a, go):
     boot, md, vers, client, req, fc = Z(a[0]), parse_md(a[1]), parse_vers(a[2]), parse_ranges(a[3]), a[4], a[5]
     out = []
@@ -442,6 +478,8 @@ def pred_e2e(a, go):
         if go != want:
             out.append((None, "metadata served from the cache differs from the last answer restricted to the requested names"))
         return out
+    if req.startswith("dg="):
+        return pred_describegroups(boot, vers, client, req, fc, go)
     ents, status = parse_trace(go)
     for b, k, v, x in ents:
         ok, why = version_ok(client, vers.get(b, {}), k, v)
@@ -490,6 +528,22 @@ def pred_e2erec(a, go):
     return out
 
 
+def pred_e2efu(a, go):
+    boot, md1, vers, client, req, ntr, g = Z(a[0]), parse_md(a[2]), parse_vers(a[3]), parse_ranges(a[4]), a[5], Z(a[6]), Z(a[7])
+    head, _, tr = go.partition(":")
+    live, total = [Z(x) for x in head[5:].split("/")]
+    if live != total:
+        return [(None, f"{total - live} of {total} fresh transports first used by {g} goroutines at the same instant sent no Metadata "
+                       f"request / kept the old view for 10 MetadataTTLs + 3s after a leader move: their refresh loop has stopped "
+                       f"(the pool lost a reference on a grabPool path)")]
+    ents, status = parse_trace(tr)
+    exp, _ = e2e_expect(boot, md1, req, "-")
+    got = [(b, k) for b, k, _, _ in ents]
+    if got != exp[1]:
+        return [(None, f"after a concurrent first use and a leader move the request went to {got}, the new leader is {exp[1]}")]
+    return []
+
+
 def predicates(c):
     op, a, go = c["op"], c["args"].split(" "), c["go"]
     try:
@@ -520,6 +574,8 @@ def predicates(c):
             return pred_e2e(a, go)
         if op == "e2erec":
             return pred_e2erec(a, go)
+        if op == "e2efu":
+            return pred_e2efu(a, go)
         if op == "e2efail":
             return [(None, "requests did not follow the cluster within the watchdog: " + go)]
     except Exception as e:            # a malformed line is a broken correspondence, not a pass
@@ -536,6 +592,13 @@ def classify(c):
                 what=f"{c['op']}: model and code differ but the code's output satisfies the property predicate", input=None)
 
 
+def generate(ctx=None):
+    """Translator: coq/Gen/Skeleton.v (call facts incl. the return statements of
+    Transport.grabPool) from /repo's current source; shared with C10/C06."""
+    from checks import c10
+    return c10.generate(ctx)
+
+
 def setup():
     L.go_build("c12")
     L.ocaml_build("c12")
@@ -547,14 +610,15 @@ def correspondence(ctx):
     n = ctx.scale(4000, 20000)
     e2e = ctx.scale(120, 600)
     rec = ctx.scale(24, 120)
+    fu = ctx.scale(6, 30)
     if getattr(ctx, "search_only_direct", False):
-        n, e2e, rec = 3 * n, 0, 0
+        n, e2e, rec, fu = 3 * n, 0, 0, 0
     texts = []
     cdir = os.path.join(L.CORPUS, "C12")
     if os.path.isdir(cdir):
         for f in sorted(os.listdir(cdir)):
             texts.append(open(os.path.join(cdir, f)).read())
-    rc, out, err, dt = L.sh([gobin, "-seed", str(ctx.seed), "-n", str(n), "-e2e", str(e2e), "-rec", str(rec)], timeout=3000)
+    rc, out, err, dt = L.sh([gobin, "-seed", str(ctx.seed), "-n", str(n), "-e2e", str(e2e), "-rec", str(rec), "-fu", str(fu), "-fun", "40"], timeout=3000)
     if rc != 0:
         raise L.Fail("correspondence", "harness cmd/c12 crashed", (out[-1500:] + err[-2500:]))
     texts.append(out)
@@ -630,7 +694,10 @@ def correspondence(ctx):
                     "with mostly different nodes for the same string and the journal records the key type of each lookup. Refresh-loop "
                     "recovery (MetadataTTL 60ms): the transport's own Metadata requests are left unanswered for a full TTL k=1..3 times, "
                     "or the connection is closed under them, then the brokers answer again and every leader moves; the cached view must "
-                    "follow within 3s and a fetch must go to the new leader. Non-trivial: feature vector other than "
+                    "follow within 10 TTLs + 3s and a fetch must go to the new leader. Describe-groups naming 1-4 groups with mostly different "
+                    "coordinators: the fake answers NOT_COORDINATOR for groups it does not coordinate and journals the groups of every "
+                    "sub-request. Concurrent first use: 40 fresh Transports per scenario, each first used by 4-8 goroutines behind a spin "
+                    "barrier, then a leader move; each transport must send a Metadata request (client id in the journal) and follow. Non-trivial: feature vector other than "
                     "the happy-path default; distinct by hash of op+args",
                samples=[c["line"][:300] + " | " + c["go"][:100] for c in cases[:2] + cases[len(cases)//3:len(cases)//3+2]
                         + cases[len(cases)//2:len(cases)//2+2] + cases[-2:]],
@@ -651,6 +718,13 @@ def search(ctx, violations):
     for v in violations:
         if v.get("input"):
             return v["input"]
+    for v in violations:
+        if v.get("layer") == "obligation" and "SkeletonRouting" in (v.get("what", "") + v.get("detail", "")):
+            v["what"] += (": T13 no longer holds of transport.go -- a return statement of Transport.grabPool is not preceded by "
+                          "p.ref() and does not construct the pool (Model/RoutingSkeleton.v): a RoundTrip would hold no reference, "
+                          "its unref cancels the pool context and stops the refresh loop")
+            return dict(case="static: Proofs/SkeletonRouting.v pool_reference_skeleton_ok over Gen/Skeleton.v",
+                        go="Transport.grabPool", model="pool_reference_assumption_holds calls = true")
     ctx.seed += 1000
     ctx.search_only_direct = True
     try:
